@@ -1689,7 +1689,14 @@ pub fn c12_hash(base_seed: u64, i: u64, _g: &GenCtx) -> Plan {
         let k = if f.raw && r.chance(9, 10) { 1 } else { 1 + r.usize_below(paths.len().max(1)) };
         for _ in 0..k {
             match r.below(10) {
-                0 => ps.push(hexs(b"no-such-file")),
+                0 => {
+                    // an input that cannot be opened; sometimes one whose name needs escaping
+                    let mut name = if r.chance(1, 2) { nasty_path(&mut r) } else { b"no-such-file".to_vec() };
+                    while paths.contains(&name) {
+                        name.push(b'_');
+                    }
+                    ps.push(hexs(&name));
+                }
                 1 if f.keyed.is_none() => {
                     ps.push(hexs(b"-"));
                     data.push(DataSpec::Random { seed: r.next(), len: r.usize_below(3000) });
@@ -1770,6 +1777,16 @@ fn check_scenario(r: &mut Rng, prop: &str, family: &str, seed: u64, nasty_p: u64
         let mut ps: Vec<String> = paths.iter().filter(|_| r.chance(3, 4)).map(|p| hexs(p)).collect();
         if ps.is_empty() {
             ps.push(hexs(&paths[0]));
+        }
+        if r.below(100) < nasty_p / 4 + 3 {
+            // one of the inputs cannot be opened (its name may need escaping): the lines of the others must
+            // come out exactly as they would alone
+            let mut name = nasty_path(r);
+            while paths.contains(&name) {
+                name.push(b'_');
+            }
+            let at = r.usize_below(ps.len() + 1);
+            ps.insert(at, hexs(&name));
         }
         ops.push(Op::CliHash { paths: ps, flags: f, stdin: None, save: Some(c) });
         cfs.push(c);
